@@ -446,10 +446,10 @@ def _tmpdir():
     return d
 
 
-def evaluate_case(case, tmp):
+def evaluate_case(case, tmp, name="case.urdf"):
     if case["family"] == "bundled":
         return evaluate(os.path.join(env.REPO, case["path"]))
-    p = os.path.join(tmp, "case.urdf")
+    p = os.path.join(tmp, name)
     with open(p, "w") as f:
         f.write(case["xml"])
     try:
@@ -462,6 +462,7 @@ def work(p):
     fam, seed, tier = p["fam"], p["seed"], p["tier"]
     acc = lattice.Acc(max_viol=40)
     tmp = _tmpdir()
+    prev_xml = None         # every generated file is written to the SAME path: the previous file is this load's history
     try:
         for idx in range(p["lo"], p["hi"]):
             case = case_at(fam, idx, seed, tier)
@@ -482,8 +483,12 @@ def work(p):
             for f in found:
                 acc.outcome("clause_" + f["clause"])
                 stored = {k: v for k, v in case.items() if k != "n_moving"}
+                if prev_xml is not None and fam != "bundled":
+                    stored["prev_xml"] = prev_xml
                 acc.violation(f["clause"], stored, f["observed"], TOL if f["clause"] == "fk_vs_file" else None,
                               f.get("quantities"))
+            if fam != "bundled":
+                prev_xml = case["xml"]
             if idx % 997 == 0 or idx == p["lo"]:
                 acc.sample({"family": fam, "idx": idx, "what": case.get("label", case.get("path")),
                             "fk_scaled_error": info["fk_err"], "flagged": [f["clause"] for f in found]})
@@ -553,6 +558,12 @@ def replay(rec):
     tmp = _tmpdir()
     try:
         found, _ = evaluate_case(c, tmp)
+        if not [f for f in found if f["clause"] == rec["clause"]] and c.get("prev_xml"):
+            # not reproducible from a fresh process: replay the two-file history on one path (a loader that remembers
+            # what it parsed from a path is only wrong for the NEXT file written there)
+            # (on a path of its own: the fresh attempt above has already been seen by the loader under case.urdf)
+            evaluate_case({"family": c["family"], "xml": c["prev_xml"]}, tmp, "history.urdf")
+            found, _ = evaluate_case(c, tmp, "history.urdf")
     finally:
         shutil.rmtree(tmp, ignore_errors=True)
         try:
